@@ -37,12 +37,12 @@ type HistCase struct {
 
 var histOps = []string{"reroot", "rerootfirst", "unroot", "midpoint", "outgroup", "prune", "prunekeep", "collapselen", "collapsesup", "collapsedepth",
 	"removeedges", "collapseclade", "resolve", "rotate", "sort", "removesingle", "clone", "subtree", "nniapply", "nniapplyundo", "insertidentical", "graft", "merge",
-	"rename", "renameauto", "renameregexp", "shuffle", "reinit", "clearlen", "clearsup", "clearcomments", "scale", "round", "addcomment", "editcomment", "resolvenamed", "nnihold", "nniundoheld", "nniapplyreorderundo", "insertidentical1", "grafttip"}
+	"rename", "renameauto", "renameregexp", "shuffle", "reinit", "clearlen", "clearsup", "clearcomments", "scale", "round", "addcomment", "editcomment", "resolvenamed", "nnihold", "nniundoheld", "nniapplyreorderundo", "nniapplyrerootundo", "insertidentical1", "grafttip"}
 
 // structure-changing operations (for the non-triviality rule)
 var structOps = map[string]bool{"reroot": true, "rerootfirst": true, "unroot": true, "midpoint": true, "outgroup": true, "prune": true, "prunekeep": true,
 	"collapselen": true, "collapsesup": true, "collapsedepth": true, "removeedges": true, "collapseclade": true, "resolve": true, "rotate": true, "sort": true,
-	"removesingle": true, "subtree": true, "resolvenamed": true, "nniapply": true, "nniapplyreorderundo": true, "insertidentical": true, "insertidentical1": true, "graft": true, "grafttip": true, "merge": true, "shuffle": true}
+	"removesingle": true, "subtree": true, "resolvenamed": true, "nniapply": true, "nniapplyreorderundo": true, "nniapplyrerootundo": true, "insertidentical": true, "insertidentical1": true, "graft": true, "grafttip": true, "merge": true, "shuffle": true}
 
 func genTreeText(rt *rapid.T, prefix string, minTips, maxTips int, comments bool) string {
 	n := drawTaxa(rt, minTips, maxTips)
@@ -202,7 +202,9 @@ const opSkip = "skip"
 // steps after which a rearrangement object obtained earlier still refers to the same nodes and branches in the same
 // places (child order may change, attributes may change)
 var keepsTopology = map[string]bool{"rotate": true, "sort": true, "scale": true, "round": true, "clearlen": true, "clearsup": true, "clearcomments": true,
-	"addcomment": true, "editcomment": true, "reinit": true, "nniundoheld": true, "nnihold": true}
+	"addcomment": true, "editcomment": true, "reinit": true, "nniundoheld": true, "nnihold": true,
+	// moving the root keeps every node and branch too (only orientations change)
+	"reroot": true, "rerootfirst": true}
 
 // applyOp interprets one step against the state. desc == opSkip: not applicable in this state.
 func applyOp(st *histState, op HOp) (desc string, err error) {
@@ -408,6 +410,26 @@ func applyOp(st *histState, op HOp) (desc string, err error) {
 			t.RotateInternalNodes()
 		}
 		return fmt.Sprintf("NNI#%d.Apply; %s; Undo", i, how), rs[i].Undo()
+	case "nniapplyrerootundo":
+		// Apply, move the root to a drawn inner node (every node and branch stays, orientations change), Undo on the same object
+		var rs []tree.Rearrangement
+		(&tree.NNIRearranger{}).Rearrange(t, func(re tree.Rearrangement) bool { rs = append(rs, re); return true })
+		if len(rs) == 0 {
+			return opSkip, nil
+		}
+		i := op.A % len(rs)
+		if e := rs[i].Apply(); e != nil {
+			return fmt.Sprintf("NNI#%d.Apply", i), e
+		}
+		inner := innerNodesOf(t, 3, true)
+		if len(inner) == 0 {
+			return fmt.Sprintf("NNI#%d.Apply; Undo", i), rs[i].Undo()
+		}
+		j := op.B % len(inner)
+		if e := t.Reroot(inner[j]); e != nil {
+			return fmt.Sprintf("NNI#%d.Apply; Reroot(inner#%d)", i, j), e
+		}
+		return fmt.Sprintf("NNI#%d.Apply; Reroot(inner#%d); Undo", i, j), rs[i].Undo()
 	case "nniundoheld":
 		if st.held == nil {
 			return opSkip, nil
